@@ -16,9 +16,15 @@ theories/TransformerM.vos theories/TransformerM.vok theories/TransformerM.requir
 theories/FilterM.vo theories/FilterM.glob theories/FilterM.v.beautified theories/FilterM.required_vo: theories/FilterM.v theories/Num.vo theories/ConverterM.vo theories/TransformerM.vo
 theories/FilterM.vio: theories/FilterM.v theories/Num.vio theories/ConverterM.vio theories/TransformerM.vio
 theories/FilterM.vos theories/FilterM.vok theories/FilterM.required_vos: theories/FilterM.v theories/Num.vos theories/ConverterM.vos theories/TransformerM.vos
-theories/Exec.vo theories/Exec.glob theories/Exec.v.beautified theories/Exec.required_vo: theories/Exec.v theories/Num.vo theories/NumF.vo theories/ConverterM.vo theories/TransformerM.vo theories/FilterM.vo
-theories/Exec.vio: theories/Exec.v theories/Num.vio theories/NumF.vio theories/ConverterM.vio theories/TransformerM.vio theories/FilterM.vio
-theories/Exec.vos theories/Exec.vok theories/Exec.required_vos: theories/Exec.v theories/Num.vos theories/NumF.vos theories/ConverterM.vos theories/TransformerM.vos theories/FilterM.vos
+theories/StogM.vo theories/StogM.glob theories/StogM.v.beautified theories/StogM.required_vo: theories/StogM.v theories/Num.vo theories/ConverterM.vo theories/TransformerM.vo theories/FilterM.vo
+theories/StogM.vio: theories/StogM.v theories/Num.vio theories/ConverterM.vio theories/TransformerM.vio theories/FilterM.vio
+theories/StogM.vos theories/StogM.vok theories/StogM.required_vos: theories/StogM.v theories/Num.vos theories/ConverterM.vos theories/TransformerM.vos theories/FilterM.vos
+theories/RebinM.vo theories/RebinM.glob theories/RebinM.v.beautified theories/RebinM.required_vo: theories/RebinM.v theories/Num.vo
+theories/RebinM.vio: theories/RebinM.v theories/Num.vio
+theories/RebinM.vos theories/RebinM.vok theories/RebinM.required_vos: theories/RebinM.v theories/Num.vos
+theories/Exec.vo theories/Exec.glob theories/Exec.v.beautified theories/Exec.required_vo: theories/Exec.v theories/Num.vo theories/NumF.vo theories/ConverterM.vo theories/TransformerM.vo theories/FilterM.vo theories/StogM.vo theories/RebinM.vo
+theories/Exec.vio: theories/Exec.v theories/Num.vio theories/NumF.vio theories/ConverterM.vio theories/TransformerM.vio theories/FilterM.vio theories/StogM.vio theories/RebinM.vio
+theories/Exec.vos theories/Exec.vok theories/Exec.required_vos: theories/Exec.v theories/Num.vos theories/NumF.vos theories/ConverterM.vos theories/TransformerM.vos theories/FilterM.vos theories/StogM.vos theories/RebinM.vos
 theories/proofs/VecLib.vo theories/proofs/VecLib.glob theories/proofs/VecLib.v.beautified theories/proofs/VecLib.required_vo: theories/proofs/VecLib.v theories/Num.vo
 theories/proofs/VecLib.vio: theories/proofs/VecLib.v theories/Num.vio
 theories/proofs/VecLib.vos theories/proofs/VecLib.vok theories/proofs/VecLib.required_vos: theories/proofs/VecLib.v theories/Num.vos
